@@ -13,7 +13,7 @@ ASCII_LETTERS_DEFAULT = string.ascii_letters + string.digits + string.punctuatio
 WORD_DEFAULT = string.ascii_letters + string.digits + "_"
 DIGITS_DEFAULT = string.digits
 
-LIT_POOL = "abcxyzABZ019_ -.*+?()[]{}|^$\\/#\"'%é"   # 'é' : non-ASCII literal, never in classes
+LIT_POOL = "abcxyzABZ019_ -.*+?()[]{}|^$\\/#\"'%é\u0416\ud800"   # non-ASCII literals incl. a lone surrogate
 
 UNSUPPORTED = [
     "(?=a)", "(?!zz)", "(?<=a)", "(?<!a)", "\\1", "(?P=g1)", "\\s", "\\S", "\\D", "\\W",
@@ -107,6 +107,12 @@ def _gen_rep(cfg, depth, budget):
         mn = r.choice((0, 0, 1, 2, 3, 43, 44))
         mx = mn + r.choice((0, 1, 2, 5, 43 - mn if mn < 43 else 1, 44 - mn if mn < 44 else 0,
                             45 - mn if mn < 45 else 2, 30))
+    if budget >= 4096 and r.random() < 0.02:
+        # an explicit count beyond 16 bits on a plain literal (no draws inside, so no draw cap)
+        mn = r.choice((65535, 65536, 70000))
+        mx = r.choice((mn, None))
+        form = "{m}" if mx == mn else "{m,}"
+        return {"k": "rep", "body": {"k": "lit", "c": r.choice("ab1")}, "min": mn, "max": mx, "lazy": lazy, "form": form}
     # the longest this repeat can get under this run's knob
     top = mx if mx is not None else max(mr, mn)
     if top > budget:
@@ -171,7 +177,9 @@ def _gen_class(cfg):
             elif y < 0.8:
                 lo, hi = r.choice((("a", "c"), ("a", "z"), ("A", "Z"), ("0", "9"), ("0", "3"),
                                    ("x", "z"), (" ", "/"), ("!", "~"), ("a", "a"), ("Z", "a"),
-                                   (" ", "~"), ("5", "A"), ("\x00", "\x7f") if r.random() < 0.2 else ("b", "y")))
+                                   (" ", "~"), ("5", "A"), ("\x00", "\x7f") if r.random() < 0.2 else ("b", "y"),
+                                   ("\u0100", "\uffff") if r.random() < 0.15 else ("0", "1"),
+                                   ("\ud7ff", "\ue000") if r.random() < 0.1 else ("m", "n")))
                 items.append({"k": "range", "a": lo, "b": hi})
             else:
                 items.append({"k": "cat", "c": r.choice("dw")})
